@@ -302,6 +302,11 @@ func runLBHealth(x *X) {
 				consecFail[name], uncertain[name] = 0, false
 			} else {
 				// (judged only while the window that failure opened cannot have elapsed)
+				// threshold 1: every failed response ejects for a full window; a successful probe never
+				// revives a backend inside its window (Helios does not even probe ejected backends)
+				if passive && threshold == 1 && everFailed[name] && nowHealthy && cur.at >= lastFailAt[name] && cur.at < lastFailAt[name]+W && !mustPassive {
+					x.Violate("C04", "C04/not-ejected-at-threshold", "backend %s answered a failed response at t=%v (threshold 1, window %v) and is reported healthy at t=%v", name, lastFailAt[name], W, cur.at)
+				}
 				if mustPassive && nowHealthy && cur.at < lastFailAt[name]+W {
 					x.Violate("C04", "C04/not-ejected-at-threshold", "backend %s answered %d failed responses in a row (threshold %d) and is still reported healthy at t=%v", name, consecFail[name], threshold, cur.at)
 				}
@@ -382,7 +387,43 @@ func runLBHealth(x *X) {
 	}
 
 	for i := 0; i < nSteps && !x.dead; i++ {
-		switch c.Pick([]int{8, 4, 3, 4, 2, 2, 2, 2}, "step") {
+		switch c.Pick([]int{8, 4, 3, 4, 2, 2, 2, 2, 2}, "step") {
+		case 8: // biased pattern: a failing answer lands at the very instant a probe round runs, so
+			// that the ejection and the processing of a (successful) probe result interleave
+			if !active || !passive {
+				continue
+			}
+			b := net.order[c.Intn(nb, "backend")]
+			now := x.Now()
+			next := (now/I + 1) * I
+			d := next - now
+			net.mu.Lock()
+			pslow := time.Duration(0)
+			if b.probeMode == "slow" && b.probeSlow <= PT {
+				pslow = b.probeSlow
+			}
+			net.mu.Unlock()
+			fm := failModes[c.Intn(len(failModes), "failmode")]
+			k := threshold
+			steps = append(steps, fmt.Sprintf("probe-aligned-failure(%s,%s,x%d,in %v)", b.name, fm, k, d+pslow))
+			x.Fault("slow-failing-request")
+			// k requests pinned to that backend by making every other backend fail faster is not
+			// possible here; instead all backends answer this burst with the failure
+			net.mu.Lock()
+			saved := map[string]string{}
+			for _, bb := range net.order {
+				saved[bb.name] = bb.mode
+			}
+			net.mu.Unlock()
+			for j := 0; j < k; j++ {
+				cl := manyClients[c.Intn(len(manyClients), "client")]
+				s.Spawn("slowreq", func() { h.do(reqSpec{client: cl, path: "/aligned", plan: &reqPlan{mode: fm, delay: d + pslow}}) })
+			}
+			x.Settle(onErr)
+			if !stepObserve() {
+				break
+			}
+			x.Advance(d+pslow, onErr)
 		case 7: // biased pattern: a backend starts failing and a burst of concurrent requests from
 			// different clients arrives: picks of other requests overlap the ejection
 			b := net.order[c.Intn(nb, "backend")]
